@@ -104,7 +104,8 @@ macro_rules
 
 /-! ## `stack.index` -/
 
-theorem index_nonempty (env : Env) :
+/-- (`hL`: the local `L` of `index` is `r.ulen()`, whether it is declared in the `if` itself or in a statement of its own before a guard clause) -/
+theorem index_nonempty (env : Env) (hL : env.L = env.ulen) :
     Gen.index_nonempty env = decide (0 < env.ulen) := by
   guard_arith [Gen.index_nonempty]
 
